@@ -133,6 +133,8 @@ def tod_cases():
                 if e and e[4] % 1000: exp = None
                 for pre in ['TOD#', 'TIME_OF_DAY#']:
                     cases.append(('TOD', f'{pre}{h}:{m:02d}:{s}', exp, 'tod'))
+    for (h, m, sec) in [(257, 0, '0'), (0, 257, '0'), (0, 0, '257'), (65537, 0, '0'), (2 ** 32 + 1, 0, '0'), (0, 2 ** 32 + 1, '0'), (0, 0, str(2 ** 32 + 1)), (0, 0, str(2 ** 64 + 1))]:
+        cases.append(('TOD', f'TOD#{h}:{m:02d}:{sec}', 'ERR P0002', 'tod-wrap'))
     return cases
 
 
@@ -153,6 +155,11 @@ def date_cases():
                 exp = f'date {y} {m} {d}' if ok else 'ERR P0002'
                 for pre in (['D#', 'DATE#'] if (y, m) in ((2024, 2), (2023, 2)) else ['D#']):
                     cases.append(('DATE', f'{pre}{y}-{m:02d}-{d:02d}', exp, 'date'))
+    # fields that are valid only modulo a machine word (a narrowing conversion before the calendar check lets them through)
+    for (y, m, d) in [(2024, 257, 20), (2024, 258, 20), (2024, 268, 20), (2024, 1, 257), (2024, 2, 285), (2024, 1, 65537), (2024, 65537, 1),
+                      (2 ** 32 + 2024, 1, 20), (2 ** 16 + 2024, 1, 20), (2 ** 31, 1, 1), (2 ** 64 + 2024, 1, 20), (2024, 2 ** 32 + 1, 1), (2024, 1, 2 ** 32 + 1)]:
+        cases.append(('DATE', f'D#{y}-{m:02d}-{d:02d}', 'ERR P0002', 'date-wrap'))
+        cases.append(('DT', f'DT#{y}-{m:02d}-{d:02d}-12:30:00', 'ERR P0002', 'dt-wrap'))
     for (y, mo, d, h, mi, s) in [(2024, 2, 29, 23, 59, '59'), (2023, 2, 29, 0, 0, '0'), (2024, 12, 31, 24, 0, '0'), (2024, 1, 1, 0, 60, '0'),
                                  (2024, 1, 1, 0, 0, '60'), (2024, 6, 15, 12, 30, '15.5'), (9999, 12, 31, 23, 59, '59.999999')]:
         t = tod_expected(h, mi, s)
@@ -222,7 +229,7 @@ def run(ctx):
         ctx.feature((c['kind'], c['lit']))
         show = {'literal': c['lit'], 'text': c['text']}
         got = il.strip() if not il.startswith('addr') else il
-        if il.startswith('PANIC') or il.startswith('DIED'):
+        if il.startswith('PANIC') or il.startswith('DIED') or il.startswith('TIMEOUT'):
             ctx.violations.append({'stream': 'literal', 'case': show, 'impl': il[:200], 'model': mp, 'what': f'the parser crashed on the literal {c["lit"]}'})
             continue
         # correspondence: whole tree, and address components
